@@ -27,6 +27,10 @@ class EngineError(Exception):
     pass
 
 
+class InlineInstead(Exception):
+    """Raised by a contract in call mode: this call site should execute the callee's body instead."""
+
+
 class ReturnEx(Exception):
     def __init__(self, value):
         self.value = value
